@@ -91,6 +91,8 @@ struct Wd {
     rwallet: [Pubkey; 3],
     prefixes: Vec<(String, Ledger, Vec<O>)>,
     alphabet: Vec<O>,
+    /// vault funding applied when a reward is initialised (index -> amount)
+    fund_on_init: [u64; 3],
 }
 
 const REWARD2_FEE_BPS: u16 = 1000;
@@ -150,7 +152,53 @@ fn build_splash(label: &str) -> Wd {
     a.push(O::Collect { pos: 0, index: 0, v2: true });
     a.push(O::Base(Op::Inc { pos: 1, liq: 1_000_000, v2: true }));
     a.push(O::Base(Op::Dec { pos: 0, part: Part::Half, v2: false }));
-    Wd { name: label.into(), w, rmint, rvault, rwallet, prefixes, alphabet: a }
+    Wd { name: label.into(), w, rmint, rvault, rwallet, prefixes, alphabet: a, fund_on_init: FUND_STD }
+}
+
+/// reward 0: exactly one day of RATE_1 emissions (so collects can exhaust the vault: pays min(owed, vault)); reward 1: a deep vault
+/// (RATE_BIG for two days); reward 2: 40 000 tokens of the fee mint
+const FUND_STD: [u64; 3] = [86_400, 86_400_000_000 * 2, 40_000];
+
+/// The FIRST reward emits its whole, very deep vault (2^62 tokens) per day — the largest rate the vault rule admits — so that after
+/// five idle days elapsed-time x rate no longer fits 128 bits and the program drops that reward's interval (allowed by the
+/// statement). The SECOND reward emits at an ordinary rate next to it: its interval must be credited all the same, whichever
+/// instruction settles first (update, swap, emission change — the Anchor routine — or a liquidity change — the Pinocchio one).
+fn build_overflow(label: &str) -> Wd {
+    let s = spec(label, [Enc::Fixed, Enc::Dynamic, Enc::Fixed]);
+    let (mut l, w) = world::build_std(&s);
+    let (rmint, rvault, rwallet) = reward_accounts(&mut l, &w, label);
+    let rate0: u128 = ((1u128 << 62) << 64) / 86_400;
+    let mut setup = vec![
+        O::InitReward { index: 0, v2: false },
+        O::InitReward { index: 1, v2: true },
+        O::Base(Op::Inc { pos: 0, liq: stdworlds::BIG, v2: false }),
+        O::Base(Op::Inc { pos: 1, liq: stdworlds::BIG / 3, v2: true }),
+        O::Base(Op::Inc { pos: 2, liq: stdworlds::BIG, v2: false }),
+        O::SetEmissions { index: 0, rate: rate0, v2: false },
+        O::SetEmissions { index: 1, rate: RATE_BIG, v2: true },
+    ];
+    for _ in 0..3 {
+        setup.push(O::Base(Op::Clock(86_400)));
+    }
+    let three_days = setup.clone();
+    setup.push(O::Base(Op::Clock(86_400)));
+    setup.push(O::Base(Op::Clock(86_400)));
+    let prefixes = vec![("idle-five-days".to_string(), l.clone(), setup), ("idle-three-days".to_string(), l.clone(), three_days)];
+    let a = vec![
+        O::Base(Op::Clock(86_400)),
+        O::Base(Op::Update { pos: 0 }),
+        O::Base(Op::Update { pos: 2 }),
+        O::Base(Op::Inc { pos: 0, liq: stdworlds::BIG, v2: true }),
+        O::Base(Op::Dec { pos: 1, part: Part::Half, v2: false }),
+        O::Base(Op::Swap { a_to_b: true, exact_in: true, amount: 1_000_000, lim: Lim::None, v2: false }),
+        O::Base(Op::Swap { a_to_b: false, exact_in: true, amount: u64::MAX >> 8, lim: Lim::NextTick, v2: true }),
+        O::SetEmissions { index: 1, rate: RATE_BIG, v2: true },
+        O::SetEmissions { index: 1, rate: RATE_SMALL, v2: false },
+        O::SetEmissions { index: 0, rate: 0, v2: true },
+        O::Collect { pos: 0, index: 1, v2: true },
+        O::Collect { pos: 0, index: 0, v2: false },
+    ];
+    Wd { name: label.into(), w, rmint, rvault, rwallet, prefixes, alphabet: a, fund_on_init: [1u64 << 62, 86_400_000_000 * 2, 40_000] }
 }
 
 fn build(label: &str, enc: [Enc; 3], vault0: u64) -> Wd {
@@ -254,7 +302,7 @@ fn build(label: &str, enc: [Enc; 3], vault0: u64) -> Wd {
         ("over-owed".to_string(), l.clone(), over),
     ];
     let _ = vault0;
-    Wd { name: label.into(), w, rmint, rvault, rwallet, prefixes, alphabet: alphabet() }
+    Wd { name: label.into(), w, rmint, rvault, rwallet, prefixes, alphabet: alphabet(), fund_on_init: FUND_STD }
 }
 
 fn worlds(thorough: bool) -> Vec<Wd> {
@@ -262,6 +310,7 @@ fn worlds(thorough: bool) -> Vec<Wd> {
     if thorough {
         v.push(build("c11-fdf", [Enc::Fixed, Enc::Dynamic, Enc::Fixed], 0));
     }
+    v.insert(0, build_overflow("c11-overflow"));
     v.insert(0, build_splash("c11-splash")); // small; explored first, the rest of the budget goes to the large worlds
     v
 }
@@ -323,6 +372,7 @@ struct Counters {
     emissions_set: AtomicU64,
     backwards_probes: AtomicU64,
     position_drops: AtomicU64,
+    beyond_u64: AtomicU64,
 }
 
 struct M<'a> {
@@ -434,6 +484,12 @@ impl<'a> M<'a> {
         self.c.observations.fetch_add(1, Ordering::Relaxed);
         let p = &self.w().positions[pi];
         for i in 0..3 {
+            if g[i].xsettled.floor() >= pow2(64) {
+                // the exact entitlement no longer fits the 64-bit amount a position can be owed (world c11-overflow only: a 2^62
+                // vault emitted per day): outside what the statement can express, not judged
+                self.c.beyond_u64.fetch_add(1, Ordering::Relaxed);
+                continue;
+            }
             let got = Q::int(g[i].collected + owed[i] as u128);
             if owed[i] > 0 {
                 self.c.nonzero_owed.fetch_add(1, Ordering::Relaxed);
@@ -665,6 +721,7 @@ fn mk_counters() -> Counters {
         emissions_set: AtomicU64::new(0),
         backwards_probes: AtomicU64::new(0),
         position_drops: AtomicU64::new(0),
+        beyond_u64: AtomicU64::new(0),
     }
 }
 
@@ -681,9 +738,7 @@ fn root_states(wd: &Wd, m: &M) -> Result<Vec<(String, St)>, String> {
 }
 
 fn model<'a>(wd: &'a Wd, c: &'a Counters) -> M<'a> {
-    // reward 0: exactly one day of RATE_1 emissions (so collects can exhaust the vault: pays min(owed, vault));
-    // reward 1: a deep vault (RATE_BIG for a day)
-    M { wd, alphabet: wd.alphabet.clone(), c, fund_on_init: [86_400, 86_400_000_000 * 2, 40_000] }
+    M { wd, alphabet: wd.alphabet.clone(), c, fund_on_init: wd.fund_on_init }
 }
 
 pub fn run(ctx: &Ctx) -> Report {
@@ -721,7 +776,7 @@ pub fn run(ctx: &Ctx) -> Report {
     r.set("accrual_intervals_credited", ld(&c.accrual_intervals));
     r.set("entitlement_observations", ld(&c.observations));
     r.guard("accrual_intervals_credited", ld(&c.accrual_intervals));
-    r.guard("intervals_dropped_by_u128_overflow", ld(&c.dropped_intervals) + 1); // RATE_HUGE can never be set (vault rule); counted, not required
+    r.guard("intervals_dropped_by_u128_overflow", ld(&c.dropped_intervals)); // world c11-overflow: a 2^62 vault emitted per day, five idle days
     r.guard("zero_liquidity_intervals", ld(&c.zero_liquidity_intervals));
     r.guard("entitlement_observations", ld(&c.observations));
     r.guard("observations_with_nonzero_owed", ld(&c.nonzero_owed));
@@ -731,6 +786,7 @@ pub fn run(ctx: &Ctx) -> Report {
     r.guard("emission_changes_refused_for_vault_balance", ld(&c.emissions_refused));
     r.guard("earlier_timestamp_probes", ld(&c.backwards_probes));
     r.set("position_credit_drops_u64", ld(&c.position_drops));
+    r.set("observations_skipped_entitlement_beyond_u64", ld(&c.beyond_u64));
     r.set("mode", "ledger mode: fingerprint = pool/position/tick-array/vault bytes + exact shadow entitlements");
     r.set("exhaustive", false);
     r.assume("the harness clock is the only time source (Clock sysvar served from the ledger)");
